@@ -66,6 +66,11 @@ func kindPerm(mode uint32) (bool, uint32) {
 	return gofs.FileMode(mode).IsDir(), mode & permMask
 }
 
+// kindPermSpecial: permission bits and setuid/setgid/sticky (for comparisons between two file systems of this library)
+func kindPermSpecial(mode uint32) (bool, uint32) {
+	return gofs.FileMode(mode).IsDir(), mode & (permMask | uint32(gofs.ModeSetuid|gofs.ModeSetgid|gofs.ModeSticky))
+}
+
 // snapDiffOS compares two snapshots the way C01 demands: same paths, kinds, permission bits,
 // regular-file bytes and explicit mtimes; the root's own mode is outside the comparison.
 func snapDiffOS(a, b []SnapEntry) string {
